@@ -15,5 +15,156 @@ Proof. vm_compute. reflexivity. Qed.
 (* the universal client (any sequence of public calls on shared objects) is accepted with every
    client variable tainted *)
 Lemma koala_client_accepted : exists a',
-  aexec (afun prog LOOP_FUEL (S (length prog))) LOOP_FUEL koala_client (repeat (true, true) client_nvars) = Some a'.
+  aexec (afun prog (dyn_ok prog) LOOP_FUEL (S (length prog))) (dyn_ok prog) LOOP_FUEL koala_client (repeat (true, true) client_nvars) = Some a'.
 Proof. eexists. vm_compute. reflexivity. Qed.
+
+(* ------------------------------------------------------------------ end-to-end corollaries
+   analysis_sound(_mask) instantiated with the verdicts above: concrete statements about the IR
+   body of EVERY entry of the generated lists, for all argument values and all stores. *)
+From Coq Require Import Arith Lia.
+From Koala Require Import Proofs.EffectsFacts.
+
+(* "running f's IR body leaves every location owned by / reachable from the tainted arguments
+   unchanged", for all argument values, stores and executions *)
+Definition pure_on_args (f : fname) (mask : list bool) : Prop :=
+  forall fd argvals st0 st',
+    nth_error prog f = Some fd ->
+    (forall x, env st0 x = call_env (f_nparams fd) argvals x) ->
+    separated (args_locs mask argvals) mask argvals ->
+    (forall l, In l (args_locs mask argvals) -> l < next st0) ->
+    exec prog (f_body fd) st0 st' ->
+    forall l, In l (args_locs mask argvals) -> heap st' l = heap st0 l.
+
+(* the same without side condition, for entries whose every formal is tainted *)
+Definition pure_on_all_args (f : fname) : Prop :=
+  forall fd argvals st0 st',
+    nth_error prog f = Some fd ->
+    length argvals = f_nparams fd ->
+    (forall x, env st0 x = call_env (f_nparams fd) argvals x) ->
+    (forall l, In l (flat_map (fun v => own v ++ reach v) argvals) -> l < next st0) ->
+    exec prog (f_body fd) st0 st' ->
+    forall l, In l (flat_map (fun v => own v ++ reach v) argvals) -> heap st' l = heap st0 l.
+
+Lemma entry_pure : forall es, forallb (no_arg_write_entry prog) es = true ->
+  forall e, In e es -> pure_on_args (fst e) (snd e).
+Proof.
+  intros es H e He fd argvals st0 st' Hf Henv Hsep Hbd Hex.
+  rewrite forallb_forall in H. specialize (H e He). unfold no_arg_write_entry in H.
+  eapply analysis_sound_mask; eauto.
+Qed.
+
+Theorem koala_public_each_pure : forall e, In e public_functions -> pure_on_args (fst e) (snd e).
+Proof. exact (entry_pure _ koala_public_pure). Qed.
+
+Theorem koala_extra_each_pure : forall e, In e public_extra -> pure_on_args (fst e) (snd e).
+Proof. exact (entry_pure _ koala_extra_pure). Qed.
+
+Theorem koala_escaping_each_pure : forall e, In e escaping_functions -> pure_on_args (fst e) (snd e).
+Proof. exact (entry_pure _ koala_escaping_pure). Qed.
+
+Lemma forallb_true_repeat : forall m, forallb (fun b : bool => b) m = true -> m = repeat true (length m).
+Proof. induction m as [|b m IH]; simpl; intro H; [reflexivity|]. destruct b; [|discriminate]. f_equal. auto. Qed.
+
+(* entries whose mask taints every formal (no sink, no self under construction) *)
+Theorem koala_public_each_pure_all_args : forall e, In e public_functions ->
+  forallb (fun b : bool => b) (snd e) = true -> pure_on_all_args (fst e).
+Proof.
+  intros [f mask] He Hall fd argvals st0 st' Hf Hlen Henv Hbd Hex. simpl in *.
+  assert (Hm : mask = repeat true (f_nparams fd)).
+  { assert (W : forallb (fun e => match nth_error prog (fst e) with
+                                   | Some fd => Nat.eqb (length (snd e)) (f_nparams fd) | None => false end)
+                        public_functions = true) by (vm_compute; reflexivity).
+    rewrite forallb_forall in W. specialize (W _ He). simpl in W. rewrite Hf in W.
+    apply Nat.eqb_eq in W. rewrite <- W. apply forallb_true_repeat. exact Hall. }
+  pose proof koala_public_pure as H. rewrite forallb_forall in H. specialize (H _ He).
+  unfold no_arg_write_entry in H. simpl in H.
+  eapply analysis_sound; eauto. unfold no_arg_write. rewrite Hf, <- Hm. exact H.
+Qed.
+
+(* well-formedness of the generated lists (so that the statements above are not vacuous): every
+   entry names an existing IR function and its mask has one bit per formal *)
+Definition entry_wf (e : fname * list bool) : bool :=
+  match nth_error prog (fst e) with
+  | Some fd => Nat.eqb (length (snd e)) (f_nparams fd)
+  | None => false
+  end.
+
+Lemma koala_entries_wf :
+  forallb entry_wf public_functions && forallb entry_wf public_extra && forallb entry_wf escaping_functions = true.
+Proof. vm_compute. reflexivity. Qed.
+
+(* the candidate callees of run-time callables are verified: dyn_ok prog is the membership test *)
+Lemma koala_dyn_targets_verified :
+  prog_targets prog <> [] /\
+  forallb (target_verified prog (prog_targets prog)) (prog_targets prog) = true.
+Proof. split; [vm_compute; discriminate|vm_compute; reflexivity]. Qed.
+
+(* ------------------------------------------------------------------ named functions *)
+From Coq Require Import String.
+Fixpoint index_of (name : string) (names : list string) (i : nat) : option nat :=
+  match names with
+  | [] => None
+  | n :: rest => if String.eqb name n then Some i else index_of name rest (S i)
+  end.
+
+(* the entry (IR index, taint mask) of the public function with this qualified name *)
+Definition public_entry (name : string) : option (fname * list bool) :=
+  match index_of name fnames 0 with
+  | None => None
+  | Some i => find (fun e => Nat.eqb (fst e) i) public_functions
+  end.
+
+Lemma public_entry_pure : forall name e, public_entry name = Some e -> pure_on_args (fst e) (snd e).
+Proof.
+  intros name e H. unfold public_entry in H. destruct (index_of name fnames 0) as [i|]; [|discriminate].
+  apply find_some in H. destruct H as [Hin _]. apply koala_public_each_pure. exact Hin.
+Qed.
+
+Definition named_pure (name : string) : Prop :=
+  exists e, public_entry name = Some e /\ pure_on_args (fst e) (snd e).
+
+Lemma named_pure_of_lookup : forall names,
+  forallb (fun n => match public_entry n with Some _ => true | None => false end) names = true ->
+  Forall named_pure names.
+Proof.
+  intros names H. rewrite forallb_forall in H. apply Forall_forall. intros n Hn. specialize (H n Hn).
+  destruct (public_entry n) as [e|] eqn:E; [|discriminate]. exists e. split; [exact E|].
+  eapply public_entry_pure; eauto.
+Qed.
+
+(* the operations the property's statement names (bond variables, colourings, couplings, flux targets,
+   point sets, index lists, permutations, colour schemes ...) *)
+Definition named_operations : list string :=
+  ["flux_finder.flux_finder:fluxes_from_bonds"; "flux_finder.flux_finder:fluxes_from_ujk";
+   "flux_finder.flux_finder:find_flux_sector"; "flux_finder.flux_finder:ujk_from_fluxes";
+   "flux_finder.flux_finder:n_to_ujk_flipped"; "flux_finder.pathfinding:path_between_plaquettes";
+   "flux_finder.pathfinding:path_between_vertices"; "flux_finder.pathfinding:a_star_search_forward_pass";
+   "hamiltonian:majorana_hamiltonian"; "hamiltonian:bisect_lattice"; "phase_space:k_hamiltonian_generator";
+   "phase_space:analyse_hk"; "chern_number:chern_marker"; "chern_number:crosshair_marker";
+   "graph_color:color_lattice"; "graph_color:edge_color"; "graph_color:vertex_color";
+   "graph_utils:make_dual"; "graph_utils:vertices_to_polygon"; "graph_utils:remove_vertices";
+   "graph_utils:remove_trailing_edges"; "graph_utils:plaquette_spanning_tree"; "graph_utils:dimerise";
+   "graph_utils:lloyd_relaxation"; "graph_utils:reorder_vertices";
+   "lattice:cut_boundaries"; "lattice:permute_vertices"; "lattice:Lattice.__init__"; "lattice:Lattice.plaquettes";
+   "voronization:generate_lattice"; "voronization:generate_point_array";
+   "plotting:plot_edges"; "plotting:plot_vertices"; "plotting:plot_plaquettes"; "plotting:plot_lattice";
+   "plotting:plot_dual"; "plotting:plot_scalar"]%string.
+
+Lemma koala_named_operations_pure : Forall named_pure named_operations.
+Proof. apply named_pure_of_lookup. vm_compute. reflexivity. Qed.
+
+(* ------------------------------------------------------------------ the verdicts do not depend on the fuel constants *)
+From Koala Require Import Proofs.EffectsMono.
+
+Theorem koala_pure_any_larger_fuel : forall lf d, LOOP_FUEL <= lf -> S (List.length prog) <= d ->
+  forall e, In e (public_functions ++ public_extra ++ escaping_functions) ->
+    verdict_with_fuel prog lf d (fst e) (snd e) = true.
+Proof.
+  intros lf d Hl Hd e He.
+  apply (verdict_fuel_monotone prog LOOP_FUEL (S (List.length prog)) lf d); [exact Hl|exact Hd|].
+  rewrite <- no_arg_write_mask_is_verdict.
+  pose proof koala_public_pure as H1. pose proof koala_extra_pure as H2. pose proof koala_escaping_pure as H3.
+  rewrite forallb_forall in H1, H2, H3.
+  apply in_app_or in He. destruct He as [He|He]; [exact (H1 _ He)|].
+  apply in_app_or in He. destruct He as [He|He]; [exact (H2 _ He)|exact (H3 _ He)].
+Qed.
